@@ -15,7 +15,7 @@ def run(check: Check) -> None:
         "reachability twin that must be violated; counterexamples are replayed natively."
     )
     check.info["rule"] = "case = (law, shard)"
-    check.bounds.update({"layers": "<=3 layers, <=2 keys each", "structured_shapes": ch_c19.NSHAPES, "formula_ops": 2, "indices": "[-4,3] thorough / [-3,2] quick", "term_pool": "7 thorough / 3 quick"})
+    check.bounds.update({"layers": "<=3 layers, <=2 keys each", "structured_shapes": ch_c19.NSHAPES, "formula_ops": 2, "orderings": ["degree", "none", "sort"], "indices": "[-4,3] thorough / [-3,2] quick", "term_pool": "7 thorough / 3 quick"})
     check.out_of_scope += ["operation sequences longer than 2 on formulas", "layers with non-int keys", "shapes outside the 9-shape menu"]
     pct = 1500 if thorough else 100
     fns = {f: [None] for f in ("lm_lookup", "lm_len_iter", "lm_write", "lm_write_len", "lm_delete", "lm_with_layers", "lm_layer_names", "st_map", "st_simplify", "st_update_merge")}
@@ -38,8 +38,14 @@ def run(check: Check) -> None:
             + [ch_c19.lm_layer_names({1: 2}, {3: 4}, k, 0, w) for k in (1, 3, 0) for w in (True, False)]
             + [f(i, 1, 2, 3, 4) for f in (ch_c19.st_map, ch_c19.st_simplify) for i in range(ch_c19.NSHAPES)]
             + [ch_c19.st_update_merge(i, 1, 2, 3, 4, 9) for i in range(ch_c19.NSHAPES)]
-            + [ch_c19.sf_ops(a, i, t, b, j, u) for a in range(3) for b in range(3) for i in range(-4, 4) for j in range(-4, 4) for t in range(3) for u in range(3)]
-        )
+        ) and all(_sf_grid(o) for o in (0, 1, 2))
+
+    def _sf_grid(o):
+        ch_c19.__dict__.update({"__ORD__": o, "__LO__": -4, "__HI__": 3, "__NP__": 7})
+        try:
+            return all(ch_c19.sf_ops(a, i, t, b, j, u) for a in range(3) for b in range(3) for i in range(-4, 4) for j in range(-4, 4) for t in range(7) for u in range(0, 7, 2))
+        finally:
+            ch_c19.__dict__.update({"__ORD__": 0, "__LO__": -3, "__HI__": 2, "__NP__": 3})
     try:
         grid_ok = _grid()
     except Exception:  # an exception escaping from the class under test is a failed law, not a harness problem
@@ -50,14 +56,23 @@ def run(check: Check) -> None:
                   ("lm_write", [{1: 2}, {3: 4}, 3, 9, 1]), ("lm_write_len", [{1: 2}, {1: 5, 3: 4}, 1, 9]), ("lm_write_len", [{1: 2}, {1: 5, 3: 4}, 3, 9]), ("lm_delete", [{1: 2}, {3: 4}, 1, 9, 3]), ("lm_with_layers", [{1: 2}, {1: 4, 2: 2}, 1, 9, 2, True]),
                   ("lm_with_layers", [{1: 2}, {1: 4, 2: 2}, 2, 9, 1, False]), ("lm_layer_names", [{1: 2}, {3: 4}, 3, 0, False])]
         probes += [(f, [i, 1, 2, 3, 4]) for f in ("st_map", "st_simplify") for i in range(ch_c19.NSHAPES)] + [("st_update_merge", [i, 1, 2, 3, 4, 9]) for i in range(ch_c19.NSHAPES)]
-        probes += [("sf_ops", [a, i, t, b, j, u]) for a in range(3) for b in range(3) for i in range(-4, 4) for j in range(-4, 4) for t in range(3) for u in range(3)]
-        for fname, args in probes:
+        probes = [(f, a, {}) for f, a in probes]
+        for o in (0, 1, 2):
+            probes += [("sf_ops", [a, i, t, b, j, u], {"__ORD__": o, "__LO__": -4, "__HI__": 3, "__NP__": 7}) for a in range(3) for b in range(3) for i in range(-4, 4) for j in range(-4, 4) for t in range(7) for u in range(0, 7, 2)]
+        reported = set()
+        for fname, args, glob in probes:
+            saved = {k: ch_c19.__dict__[k] for k in glob}
+            ch_c19.__dict__.update(glob)
             try:
                 okp = getattr(ch_c19, fname)(*args)
             except Exception:
                 okp = False
-            if okp is not True:
-                check.violation(f"{fname}", f"container law {fname} fails natively for {args}", {"kind": "ch_native", "module": "ch_c19", "function": fname, "call": {"args": args, "kwargs": {}}})
+            finally:
+                ch_c19.__dict__.update(saved)
+            if okp is not True and (fname, glob.get("__ORD__")) not in reported:
+                reported.add((fname, glob.get("__ORD__")))
+                check.violation(f"{fname}" + (f"[ordering={('degree', 'none', 'sort')[glob['__ORD__']]}]" if glob else ""), f"container law {fname} fails natively for {args}" + (f" under _ordering={('degree', 'none', 'sort')[glob['__ORD__']]!r}" if glob else ""),
+                                {"kind": "ch_native", "module": "ch_c19", "function": fname, "call": {"args": args, "kwargs": {}}, "globals": glob})
                 break
     runner.run_module(check, "ch_c19", fns, pct=pct, ppt=15, group="containers",
                       keyer=lambda fname, call: f"{fname}")
